@@ -256,6 +256,25 @@ theorem WfShipOK.name {rules : Option (List Rule)} {e : Entry} (h : WfShipOK rul
     · rw [hn, wfStrip, hsuf]; exact hex
     · rw [hn, hsuf] at hs; cases hs
 
+/-- hence for an excluded path `p` the entry is named neither `p` nor `p/` -/
+theorem WfShipOK.not_named {rules : Option (List Rule)} {e : Entry} (h : WfShipOK rules e) (p : Str)
+    (hp : (ruleExcludes rules p).1 = true) : e.name ≠ p ∧ e.name ≠ p ++ ['/'] := by
+  obtain ⟨h1, h2, h3⟩ := h.name
+  refine ⟨?_, ?_⟩
+  · intro hn
+    by_cases hs : hasSuffix e.name ['/'] = true
+    · have := h2 (h3 hs)
+      rw [hn, hp] at this
+      cases this
+    · have hst : wfStrip e.name = p := by rw [wfStrip, if_neg hs, hn]
+      rw [hst, hp] at h1
+      cases h1
+  · intro hn
+    have hst : wfStrip e.name = p := by
+      rw [hn, wfStrip, if_pos (by simp [hasSuffix]), List.dropLast_concat]
+    rw [hst, hp] at h1
+    cases h1
+
 /-- every entry `Pack` writes without dereferencing passed the ignore tests of the rule set in force -/
 theorem wf_pack_ship (fs : FS) (cwd : Str) (o : PackOpts) (src : Str) (hd : o.dereference = false) :
     ∀ e ∈ (pack fs cwd o src).1.entries, WfShipOK (pkRules fs cwd o src) e := by
